@@ -65,7 +65,7 @@ HDLR_META = full(b"hdlr", 0, 0, b"\0\0\0\0" + b"mdir" + b"appl" + b"\0" * 8 + b"
 class Layout(object):
     """parameters of a synthesised file; `describe()` is the stable, JSON-able form"""
     FIELDS = ("moov_first", "traks", "udta", "meta", "ilst", "free", "wide", "zero_last", "nmoof", "tfhd_noflag",
-              "ilst_first", "nchunks", "split")
+              "ilst_first", "nchunks", "split", "tfhd_extra")
 
     def __init__(self, **kw):
         self.moov_first = True
@@ -81,6 +81,8 @@ class Layout(object):
         self.ilst_first = False        # meta = [ilst, hdlr, ...] instead of [hdlr, ilst, ...]
         self.nchunks = 3
         self.split = False             # mdat, moov, mdat: every table addresses chunks on both sides of moov
+        self.tfhd_extra = 0            # further tf_flags next to base-data-offset-present: 0x020000 default-base-is-moof,
+                                       # 0x000002 sample-description-index, 0x000008 default-sample-duration, ...
         for k, v in kw.items():
             assert k in self.FIELDS, k
             setattr(self, k, v)
@@ -221,7 +223,18 @@ def build(lay):
         fpay = b"frag-lead" + marker("F", k, 0) + marker("F", k, 1)
 
         def moof(base_off):
-            tf = full(b"tfhd", 0, 0x000001, struct.pack(">IQ", 1, base_off), wide=("tfhd" in wide))
+            # ISO 14496-12 §8.8.7: track_ID, then the optional fields in flag order; base_data_offset (0x000001) comes
+            # first and is absolute whatever the other flags say
+            opt = b""
+            if lay.tfhd_extra & 0x000002:
+                opt += struct.pack(">I", 1)
+            if lay.tfhd_extra & 0x000008:
+                opt += struct.pack(">I", 1024)
+            if lay.tfhd_extra & 0x000010:
+                opt += struct.pack(">I", 20)
+            if lay.tfhd_extra & 0x000020:
+                opt += struct.pack(">I", 0)
+            tf = full(b"tfhd", 0, 0x000001 | lay.tfhd_extra, struct.pack(">IQ", 1, base_off) + opt, wide=("tfhd" in wide))
             trun = full(b"trun", 0, 0x000001, struct.pack(">Ii", 2, 9))
             trafs = box(b"traf", tf + trun)
             if lay.tfhd_noflag:
@@ -648,6 +661,9 @@ def layouts(ctx):
         add(moov_first=mf, nmoof=1)
         add(moov_first=mf, nmoof=1, tfhd_noflag=True, zero_last=True)
         add(moov_first=mf, nmoof=2)
+        add(moov_first=mf, nmoof=2, tfhd_extra=0x020000)
+        add(moov_first=mf, nmoof=1, tfhd_extra=0x02000A)
+        add(moov_first=mf, nmoof=1, tfhd_extra=0x00003A)
         add(moov_first=mf, nmoof=3, udta="none", meta=False, ilst="none", tfhd_noflag=True)
     # media data on both sides of moov: one table holds entries that move and entries that stay
     add(split=True)
@@ -670,7 +686,8 @@ def layouts(ctx):
         L.append(Layout(moov_first=rng.random() < 0.5, traks=[rng.choice(["stco", "co64"]) for _ in range(rng.choice([1, 1, 2, 3]))],
                         udta=udta, meta=meta, ilst=ilst, free=free, wide=wide, zero_last=rng.random() < 0.15,
                         nmoof=rng.choice([0, 0, 0, 1, 1, 2, 3]), tfhd_noflag=rng.random() < 0.3,
-                        ilst_first=rng.random() < 0.08, nchunks=rng.choice([1, 3, 5]), split=rng.random() < 0.12))
+                        ilst_first=rng.random() < 0.08, nchunks=rng.choice([1, 3, 5]), split=rng.random() < 0.12,
+                        tfhd_extra=rng.choice([0, 0, 0x020000, 0x02000A, 0x000008, 0x00003A])))
     seen = set(); out = []
     for l in L:
         if l.key() not in seen:
